@@ -425,7 +425,9 @@ class Service(object):
             if caching_enabled:
                 self.cache.store_address(address, last_block, last_txid=last_txid, txs_complete=True)
                 for t in all_txs:
-                    self.cache.store_transaction(t, commit=False)
+                    # Do not cache transactions after one which could not be stored: cache must hold a history without gaps
+                    if self.cache.store_transaction(t, commit=False) is False:
+                        break
                 self.cache.commit()
         return all_txs
 
